@@ -24,7 +24,7 @@ class PolicyIteration(Plans):
             (len(mdps), ) + mdps[0].transition_matrix.shape,
             dtype=mdps[0].transition_matrix.dtype
         )
-        discount_rates = np.zeros((len(mdps), ), dtype=type(mdps[0].discount_rate))
+        discount_rates = np.zeros((len(mdps), ), dtype=float)
         state_action_reward_matrices = np.zeros(
             (len(mdps), ) + mdps[0].transition_matrix.shape[:-1],
             dtype=mdps[0].reward_matrix.dtype
